@@ -50,6 +50,7 @@ GenCands(f) ==
       [] f.kind = "list"     -> {ListV(<<IntV(2), gs(<<"3">>)>>), ListV(<<IntV(-1)>>), gs(<<"x">>), ListV(<<>>)}
       [] f.kind = "dict"     -> {GD1(<<"k">>, IntV(1)), GD1(<<"k">>, gs(<<"x">>)), GD1(<<"m">>, IntV(7)), DictV(<<>>), ListV(<<>>)}
       [] f.kind = "challenge" -> {gs(<<"h", "u", "n", "t", "e", "r">>), IntV(1), NoneV}
+      [] f.kind = "url"      -> {gs(<<"f", "t", "p", ":", "/", "/", "b">>), gs(<<>>), gs(<<"n", "o", "u", "r", "l">>), NoneV}
       [] f.kind = "schema"   ->
             LET k1 == f.fields[1][1]  f1 == f.fields[1][2]
                 inner == IF f1.kind = "schema" THEN {GD1(KeyChars[f1.fields[1][1]], IntV(1))} ELSE GenCands(f1) IN
@@ -95,6 +96,10 @@ GenDictOps(Sx) ==
          [m |-> "update", kv |-> << <<gs(<<"a">>), IntV(1)>>, <<gs(<<"b">>), gs(<<"x">>)>> >>],
          [m |-> "ior", kv |-> << <<gs(<<"c">>), gs(<<"3">>)>> >>], [m |-> "setdefault", k |-> gs(<<"k">>), v |-> IntV(5)],
          [m |-> "pop", k |-> gs(<<"K">>)], [m |-> "pop", k |-> gs(<<"k">>)], [m |-> "clear"]}
+        \cup (IF FieldOf(SchemaAt(Sx, pk[1]), pk[2]).valf.kind = "dict"
+              THEN {[m |-> "setitem", k |-> gs(<<"e", "u">>), v |-> GD1(<<"b">>, IntV(-1))], [m |-> "setitem", k |-> gs(<<"e", "u">>), v |-> GD1(<<"b">>, IntV(2))],
+                    [m |-> "setdefault", k |-> gs(<<"u", "s">>), v |-> GD1(<<"b">>, gs(<<"x">>))], [m |-> "update", kv |-> << <<gs(<<"a">>), GD1(<<"c">>, IntV(-3))>> >>]}
+              ELSE {})
         \cup (IF FieldOf(SchemaAt(Sx, pk[1]), pk[2]).keyf.kind = "nofield"
               THEN {[m |-> "setitem", k |-> TupleV(<<IntV(3)>>), v |-> gs(<<"x">>)], [m |-> "setitem", k |-> TupleV(<<IntV(3), IntV(4)>>), v |-> IntV(-1)],
                     [m |-> "setitem", k |-> TupleV(<<IntV(3)>>), v |-> IntV(2)], [m |-> "setitem", k |-> IntV(7), v |-> gs(<<"x">>)]}
